@@ -129,7 +129,15 @@ def model_decision(r, cw, case):
         elif a is not None and ('int' in a or 'chr' in a):
             v = list(a.values())[0]; env[cv] = ord(v) if isinstance(v, str) else int(v)
     env['ao'] = 0; env['bo'] = 0
-    return cw.eval_stmts(r['stmts'], dict(env), cint=False)
+    return cw.eval_stmts(r['stmts'], dict(env), cint=False), env
+
+def lean_line(r, env):
+    parts = []
+    for k, v in env.items():
+        if isinstance(k, tuple): parts.append('%s_%s=%d' % (k[0], k[1], int(v)))
+        elif k in ('A', 'x', 'y', 'ao', 'bo'): parts.append('%s_given=%d' % (k, int(v)))
+        else: parts.append('%s=%d' % (k, int(v)))
+    return 'base %s %s' % (r['name'], ' '.join(parts))
 
 def base_probes(ctx, rng, gb, prop='C19'):
     """prop = 'C19': faults are reported; prop = 'C16': sparse / dense disagreements are reported"""
@@ -138,6 +146,7 @@ def base_probes(ctx, rng, gb, prop='C19'):
     stat = {}; per = {}
     cid = 7 * 10**6
     models, cw = base_model(ctx) if prop == 'C19' else ({}, None)
+    llines, lpy = [], []
     corpus = [dict(c, id=8 * 10**6 + i, valid=True) for i, c in enumerate(json.load(open(os.path.join(vlib.VERIF, 'tools', 'corr', 'c19_corpus.json')))['base'])]
     try:
         for it in range(n + len(corpus)):
@@ -156,9 +165,10 @@ def base_probes(ctx, rng, gb, prop='C19'):
                 ctx.violation('c16:ccs-invalid:' + case['routine'], '%s leaves a sparse argument with invalid compressed-column arrays' % show(case), case)
             # decision of the translated checks of gemv / symv (Gen/BaseWrap.lean) vs the real wrapper
             if prop == 'C19' and case['routine'] in models and res in ('ok', 'TypeError', 'ValueError', 'NotImplementedError', 'ArithmeticError'):
-                try: dec = model_decision(models[case['routine']], cw, case)
+                try: dec, menv = model_decision(models[case['routine']], cw, case)
                 except (KeyError, ZeroDivisionError): dec = None
                 if dec is not None:
+                    if len(llines) < 3000: llines.append(lean_line(models[case['routine']], menv)); lpy.append(dec)
                     stat['model:' + dec[0]] = stat.get('model:' + dec[0], 0) + 1
                     exp = dec[1] if dec[0] == 'reject' else 'ok' if dec[0] == 'none' else None
                     if exp is not None and res != exp:
@@ -168,6 +178,16 @@ def base_probes(ctx, rng, gb, prop='C19'):
             if res == 'ok': per[case['routine']] = per.get(case['routine'], 0) + 1
     finally:
         w.close()
+    if llines:
+        # the generated Lean functions (Gen/BaseWrap.lean) decide the same calls in the same way as the Python evaluation of the parsed checks
+        out = vlib.drive('C19L', llines); badl = 0
+        for l, d_, o in zip(llines, lpy, out):
+            lw = o.split(' '); lc = (lw[0] + ' ' + lw[1]) if lw[0] == 'reject' else lw[0]
+            pc = ('reject ' + d_[1]) if d_[0] == 'reject' else d_[0]
+            if lc != pc:
+                badl += 1
+                if badl <= 3: ctx.broke('generated Lean function vs Python evaluation of the same AST (base.c)', {'line': l, 'lean': o, 'python': pc})
+        stat['lean_lines'] = len(llines)
     ctx.cov['base_probes'] = dict(stat, calls=n, accepted_per_routine=per)
     return n
 
